@@ -21,12 +21,12 @@ PLAN = {
     "quick": {"configs": ["ext1", "ext0"], "nshards": 9, "nshards_ext0": 3, "timeout": 900},
     "thorough": {"configs": ["ext1", "ext0"], "nshards": 14, "timeout": 3400, "suite": ["ext1"]},
 }
-DECIDING = ["direction.marker", "humans.boundary", "format.phrase", "history", "in_words", "tokens", "humans.direction", "bound", "argforms"]
-FLOORS = {"quick": {"format.phrase": 300000, "history": 50000, "in_words": 5000, "tokens": 10000, "humans.direction": 5000, "bound": 20000, "humans.boundary": 20000, "direction.marker": 50000, "argforms": 100},
+DECIDING = ["direction.marker", "humans.boundary", "format.phrase", "history", "in_words", "tokens", "humans.direction", "bound", "argforms", "concurrent"]
+FLOORS = {"quick": {"format.phrase": 300000, "history": 50000, "in_words": 5000, "tokens": 10000, "humans.direction": 5000, "bound": 20000, "humans.boundary": 20000, "direction.marker": 50000, "argforms": 100, "concurrent": 10000},
           "thorough": {"format.phrase": 1500000, "history": 200000, "in_words": 50000, "tokens": 10000, "humans.direction": 50000, "bound": 200000, "humans.boundary": 100000, "direction.marker": 200000, "argforms": 100}}
 REQUIRED_HOOKS = ["DifferenceFormatter.format"]
 EXHAUSTIVE = {"quick": False, "thorough": True}
-TECHNIQUE = "runtime contract on DifferenceFormatter.format with a reference phrase built from the locale's own data (direction templates, documented rounding), totality monitors, history-independence digests; direction-marker monitor (documented English markers, majority markers of each locale); boundary expectation for diff_for_humans under pinned clocks with mixed reference kinds; the locale argument in its legitimate spellings (str subclass, (str, Enum) member, case, dash), the first use in a process rotating between them"
+TECHNIQUE = "runtime contract on DifferenceFormatter.format with a reference phrase built from the locale's own data (direction templates, documented rounding), totality monitors, history-independence digests; direction-marker monitor (documented English markers, majority markers of each locale); boundary expectation for diff_for_humans under pinned clocks with mixed reference kinds; the locale argument in its legitimate spellings (str subclass, (str, Enum) member, case, dash), the first use in a process rotating between them; shared objects used by six threads at once (1 us switch interval), every outcome compared with the single-threaded, contract-judged one"
 LEVEL_TEXT = ("every phrase produced by DifferenceFormatter.format during the workloads is checked for totality and compared with the "
               "phrase the locale's own templates give for the selected direction and the documented rounding; the thorough tier enumerates "
               "27 locales x 7 units x counts 0..1000 x now/other x past/future x absolute; phrases are re-produced after shuffled call "
@@ -299,6 +299,8 @@ def cases(M):
         locs = [l for i, l in enumerate(locs) if i % 3 == M.shard % 3][:6]
     else:
         locs = locs[M.shard::M.nshards]
+    if M.shard % 2 == 0:
+        yield {"k": "threads", "n": 4000 if thorough else 1200, "seed": r.randrange(1 << 30)}
     for li, loc in enumerate(locs):
         yield {"k": "argforms", "loc": loc, "first": li + M.shard + M.seed}       # the first use of this locale in this process
         yield {"k": "grid", "loc": loc}
@@ -326,6 +328,25 @@ def run(M, c):
 
     P = M.pendulum
     k = c["k"]
+    if k == "threads":
+        # the process-wide DifferenceFormatter / Locale tables used by six threads at once with different locales and pairs
+        from pvmon import conc
+
+        r_ = random.Random(c["seed"])
+        base = P.DateTime(2021, 6, 15, 12, 0, 0, tzinfo=P.UTC)
+        items = []
+        for i in range(c["n"]):
+            loc = r_.choice(M.locs)
+            secs = r_.choice((1, 45, 60, 3599, 3600, 86399, 86400, 7 * 86400, 26 * 86400, 40 * 86400, 400 * 86400)) * r_.choice((1, 2, 5, 11)) * r_.choice((1, -1))
+            items.append((base, base.add(seconds=secs), loc, i % 3 == 0))
+
+        def one(it):
+            a, b, loc, ab = it
+            return (a.diff_for_humans(b, absolute=ab, locale=loc), (b - a).in_words(locale=loc), a.format("dddd D MMMM, Do A", locale=loc))
+
+        conc.differential(M, items, one, "C18/concurrent", show=lambda it: f"{it[1].isoformat()} {it[2]} abs={it[3]}")
+        M.cls("threads")
+        return
     if k == "grid":
         loc = c["loc"]
         pl = M.data[loc]["plural"]
